@@ -1134,6 +1134,54 @@ func (ex *Exec) run(s *astate) ([]*astate, *AOutcome, error) {
 				}
 			}
 			fr.env[x] = ex.eval(s, fr, x)
+		case *ssa.Slice:
+			if ex.Bounds {
+				// constant slice bounds outside the operand: negative, low above high, or above what the
+				// operand has (its length when no high bound is given; an array's size)
+				cv := func(v ssa.Value) (int64, bool) {
+					if v == nil {
+						return 0, false
+					}
+					k, ok := ex.val(s, fr, v).ConstVal()
+					if !ok {
+						return 0, false
+					}
+					if w := widthOf(v.Type()); w > 0 && w < 64 && isSigned(v.Type()) {
+						return signExt(k, w), true
+					}
+					return int64(k), true
+				}
+				lo, loK := cv(x.Low)
+				hi, hiK := cv(x.High)
+				n, capN := int64(-1), int64(-1)
+				switch b := ex.val(s, fr, x.X); {
+				case b.K == ASlice && b.Len >= 0:
+					n = int64(b.Len)
+				case b.K == APtr:
+					if pt, ok := x.X.Type().Underlying().(*types.Pointer); ok {
+						if at, ok := pt.Elem().Underlying().(*types.Array); ok {
+							n, capN = at.Len(), at.Len()
+						}
+					}
+				}
+				bad := ""
+				switch {
+				case loK && lo < 0:
+					bad = fmt.Sprintf("slice bounds out of range [%d:]", lo)
+				case hiK && hi < 0:
+					bad = fmt.Sprintf("slice bounds out of range [:%d]", hi)
+				case loK && hiK && lo > hi:
+					bad = fmt.Sprintf("slice bounds out of range [%d:%d]", lo, hi)
+				case loK && !hiK && x.High == nil && n >= 0 && lo > n:
+					bad = fmt.Sprintf("slice bounds out of range [%d:%d]", lo, n)
+				case hiK && capN >= 0 && hi > capN:
+					bad = fmt.Sprintf("slice bounds out of range [:%d] with capacity %d", hi, capN)
+				}
+				if bad != "" {
+					return nil, &AOutcome{Conds: append(s.conds, bad+" in "+fr.fn.Name()), Mem: s.mem, Trace: s.trace, Panicked: true, Facts: s.facts, SFacts: s.sfacts, Excl: s.excl, Nils: s.nils, Rels: s.rels}, nil
+				}
+			}
+			fr.env[x] = ex.eval(s, fr, x)
 		case *ssa.Lookup:
 			if s.stopAt == nil && !s.stopRet {
 				if fs := ex.forkLookup(s, fr, x); fs != nil {
